@@ -100,7 +100,7 @@ def scenarios(ctx):
     scs = []
     alpha = ["t", "T", "p", "q", "b"]
     # (1) every ending x every prefix
-    maxlen = 3
+    maxlen = 4 if ctx.thorough() else 3
     for end in ENDINGS:
         if "dial" in ENDINGS[end]:
             scs.append(scenario([((), end)]))
@@ -162,7 +162,7 @@ def scenarios(ctx):
         sc["kind"] = "rerun3"
         scs.append(sc)
     # random mixtures
-    n = 400 if ctx.thorough() else 120
+    n = 3000 if ctx.thorough() else 120
     for _ in range(n):
         runs = []
         for _ in range(rnd.randint(1, 2)):
